@@ -1,6 +1,7 @@
 import Driver.Util
 import Typegen.Topo
 import Typegen.Kahn
+import Typegen.Order
 /-! ops `topo`, `kahn` (C20, C09) -/
 open Lean
 namespace Drv
@@ -37,7 +38,11 @@ def opTopo (inp imp : Json) : Except String Json := do
     let k ← (a[0]!).getStr?
     let v ← asStrList (a[1]!)
     pure (k, v)
-  let deps := lookupDeps tbl
+  -- since fix dcbafc3 the routine visits the requested names and every dependency set in *sorted* order;
+  -- the observed hash orders (`types`, `deps` as sent) no longer matter, which is exactly what is checked here
+  let sortS (l : List String) : List String := (O.sortNames (l.map String.toList)).map String.ofList
+  let deps := fun n => sortS (lookupDeps tbl n)
+  let types := sortS types
   let univ := (tbl.map (·.1) ++ tbl.flatMap (·.2) ++ types).eraseDups
   let fuel := univ.length + 1
   let st := D.topoSort deps fuel types
